@@ -78,6 +78,8 @@ type Scenario struct {
 	Pkgs  []PkgDesc `json:"pkgs,omitempty"`  // package image pool: image i is built from Pkgs[i]
 	// Lag: ObjectSets created since the last "sync" step are invisible to the ObjectDeployment controller's reads
 	Lag bool `json:"lag,omitempty"`
+	// CreationOrder: symbolic object indexes of steps (and the round-robin of quiesce) go by creation order, not by name
+	CreationOrder bool `json:"creationOrder,omitempty"`
 	// ClusterDep: the deployment ops act on a ClusterObjectDeployment (revisions are ClusterObjectSets)
 	ClusterDep bool `json:"clusterDep,omitempty"`
 	// GracefulWidgets: Widgets are deleted gracefully (stay terminating without finalizers until the "kubelet" step)
@@ -692,7 +694,21 @@ func (pv *PassView) PoolWrites() []*kubesim.Call {
 
 // ExistingOf lists the keys the named controller reconciles (its kind, any namespace), sorted.
 func (r *Runner) ExistingOf(ctrlName string) []kubesim.Key {
-	return r.W.ListKeys(engine.PKOGroup, engine.ControllerKind[ctrlName])
+	return r.byAge(r.W.ListKeys(engine.PKOGroup, engine.ControllerKind[ctrlName]))
+}
+
+// byAge: with Scenario.CreationOrder symbolic object indexes go by age instead of by name: two variants of a scenario whose
+// generated names differ (template hashes) then address the same objects with the same step.
+func (r *Runner) byAge(keys []kubesim.Key) []kubesim.Key {
+	if r.Sc.CreationOrder {
+		age := func(k kubesim.Key) int {
+			n := 0
+			fmt.Sscanf(engine.UID(r.W.Store.PeekNoCopy(k)), "uid-%d", &n)
+			return n
+		}
+		sort.SliceStable(keys, func(i, j int) bool { return age(keys[i]) < age(keys[j]) })
+	}
+	return keys
 }
 
 // Reconcile runs one pass and the monitors.
@@ -896,7 +912,7 @@ func (r *Runner) Exec(idx int, st Step) error {
 			_ = c.Create(r.W.Ctx, &u)
 		})
 	case "pausePhase":
-		keys := append(r.W.ListKeys(engine.PKOGroup, "ObjectSetPhase"), r.W.ListKeys(engine.PKOGroup, "ClusterObjectSetPhase")...)
+		keys := r.byAge(append(r.W.ListKeys(engine.PKOGroup, "ObjectSetPhase"), r.W.ListKeys(engine.PKOGroup, "ClusterObjectSetPhase")...))
 		if len(keys) == 0 {
 			return nil
 		}
@@ -932,7 +948,7 @@ func (r *Runner) Exec(idx int, st Step) error {
 var extraOps = map[string]func(r *Runner, st Step) error{}
 
 func (r *Runner) setKeys() []kubesim.Key {
-	keys := append(r.W.ListKeys(engine.PKOGroup, "ObjectSet"), r.W.ListKeys(engine.PKOGroup, "ClusterObjectSet")...)
+	keys := r.byAge(append(r.W.ListKeys(engine.PKOGroup, "ObjectSet"), r.W.ListKeys(engine.PKOGroup, "ClusterObjectSet")...))
 	return keys
 }
 
